@@ -360,6 +360,59 @@ pub fn record(args: &Args) {
     let mut produced = 0u64;
     let mut attempts = 0u64;
 
+    if mode == "sweep-range" || mode == "sweep-point" {
+        // every expression of the hint-branch family x its critical dates (every `every`-th one, rotating with the
+        // seed), with the long limits: open-ended streams / next_change whose changes may be many years apart
+        let every = args.get_u64("every", 8) as usize;
+        let mut k = seed as usize;
+
+        let (part, parts) = (args.get_u64("part", 0) as usize, args.get_u64("parts", 1) as usize);
+
+        'outer: for (idx, src) in HINT_FAMILY.iter().chain(BOUNDS_FAMILY.iter()).enumerate() {
+            if idx % parts != part {
+                continue;
+            }
+            let Ok(Ok(parsed)) = guarded(|| opening_hours_syntax::parse(src)) else { continue };
+            let ctx = if src.contains("PH") || src.contains("SH") { Ctx::random(&mut rng) } else { Ctx::plain() };
+            let Ok(Ok(oh)) = guarded(|| OpeningHours::parse(src)) else { continue };
+            let oh = oh.with_context(ctx.context());
+            let expr_json = astjson::expr(&parsed);
+
+            for day in critical(&parsed, &ctx) {
+                k += 1;
+                if k % every != 0 {
+                    continue;
+                }
+                work += opening_hours::verif::take_stats().schedule_at_calls;
+                if work > work_budget {
+                    eprintln!("work budget exhausted after {produced} sweep events");
+                    break 'outer;
+                }
+                let t = datetime(day, *rng.pick(&[0u32, 43_200, 86_399, 30_600]));
+                let (src_c, oh_c, ctx_c, long_c) = (src.to_string(), oh.clone(), ctx.clone(), long_lim.clone());
+                let next_id = id + 1;
+                let point = mode == "sweep-point";
+                let end = datetime(DAY_MAX + 1, 0);
+                let res = with_timeout(args.get_u64("event-timeout", 20), move || {
+                    if point {
+                        point_event(next_id, &src_c, &oh_c, &ctx_c, t, None, &long_c)
+                    } else {
+                        range_event(next_id, &src_c, &oh_c, &ctx_c, t, end, &long_c)
+                    }
+                });
+                if let Some((Some(mut ev), w)) = res {
+                    work += w;
+                    id += 1;
+                    produced += 1;
+                    ev["expr"] = expr_json.clone();
+                    println!("{ev}");
+                }
+            }
+        }
+
+        return;
+    }
+
     while produced < n && attempts < n * 30 && timeouts < 6 {
         attempts += 1;
         work += opening_hours::verif::take_stats().schedule_at_calls;
@@ -388,7 +441,19 @@ pub fn record(args: &Args) {
             if std::env::var("OHV_TRACE").is_ok() {
                 eprintln!("expr {src:?}");
             }
-            let t = if mode == "bounds" { pick_bound_instant(&mut rng) } else { pick_instant(&mut rng, &crit) };
+            let mut t = if mode == "bounds" { pick_bound_instant(&mut rng) } else { pick_instant(&mut rng, &crit) };
+
+            // half of the instants sit on / next to a boundary of that day's schedule
+            if rng.chance(1, 2) {
+                if let Ok(tiles) = guarded(|| oh.schedule_at(t.date()).into_iter().collect::<Vec<_>>()) {
+                    if tiles.len() > 1 {
+                        let b = rng.pick(&tiles[1..]).range.start.mins_from_midnight() as i64 * 60;
+                        let delta = *rng.pick(&[-60, -1, 0, 0, 0, 1, 30, 59, 60]);
+                        let sec = (b + delta).clamp(0, 86_399);
+                        t = datetime(daynum(t.date()), sec as u32);
+                    }
+                }
+            }
 
             let timeout = args.get_u64("event-timeout", 20);
             let (src_c, oh_c, ctx_c, mode_c) = (src.clone(), oh.clone(), ctx.clone(), mode.clone());
